@@ -45,13 +45,16 @@ def bounded(ctx):
     try:
         for cell, sym in CELLS:
             for ng in counts:
-                for noisy in (False, True, 0.003, 0.006):
+                for noisy in (False, "all-pairs", True, 0.003, 0.006):
                     uc = uc_mod.unitcell(cell, sym)
                     dsmax = 2.6 / min(cell[:3])
                     h = np.array([x[1] for x in uc.gethkls(dsmax)], float)
                     Us = [rot(rng) for _ in range(ng)]
                     UBs = [U.dot(uc.B) for U in Us]
                     gv = np.concatenate([UB.dot(h.T).T for UB in UBs])
+                    allpairs = noisy == "all-pairs"          # ideal data, cosine_tol < 0: every pair within the tolerance instead of the closest
+                    if allpairs:
+                        noisy = False
                     strong = noisy not in (False, True)      # noise comparable with the tolerance: only a part of each grain's peaks is within hkl_tol
                     if strong:
                         gv = gv + rng.normal(scale=noisy, size=gv.shape)
@@ -67,12 +70,13 @@ def bounded(ctx):
                     minpks = int((0.5 if strong else 0.8) * len(h))
                     hkl_tol = 0.01 if not noisy else 0.02
                     with contextlib.redirect_stdout(io.StringIO()), contextlib.redirect_stderr(io.StringIO()):
-                        ix = ix_mod.indexer(unitcell=uc, gv=gv, wavelength=0.3, minpks=minpks, hkl_tol=hkl_tol, cosine_tol=0.002, ds_tol=0.005,
-                                            max_grains=100)
+                        ix = ix_mod.indexer(unitcell=uc, gv=gv, wavelength=0.3, minpks=minpks, hkl_tol=hkl_tol,
+                                            cosine_tol=(-0.002 if allpairs else 0.002), ds_tol=0.005, max_grains=100)
                         ix.score_all_pairs()
                     ubis = [np.asarray(u) for u in ix.ubis]
                     ev += 1
                     tag = dict(cell=cell, sym=sym, grains=ng, noise=(float(noisy) if strong else ("2e-4 + spurious" if noisy else 0)), seed=ctx.seed,
+                               cosine_tol=(-0.002 if allpairs else 0.002),
                                U=[u.tolist() for u in Us])
                     rt, at = (2e-2, 1.5) if strong else (5e-3, 0.3)
                     for k, u in enumerate(ubis):
@@ -98,7 +102,7 @@ def bounded(ctx):
     finally:
         logging.disable(logging.NOTSET)
     return dict(evaluations=ev, distinct_nontrivial=ev, samples=samples, failures=fails[:12],
-                rule="8 cells (cubic F/I/P, hexagonal, tetragonal, orthorhombic, monoclinic, rhombohedral) x %s grains x {ideal, noisy + 30%% spurious "
+                rule="8 cells (cubic F/I/P, hexagonal, tetragonal, orthorhombic, monoclinic, rhombohedral) x %s grains x {ideal, ideal with cosine_tol -0.002 (all pairs within tolerance), noisy + 30%% spurious "
                      "peaks, gaussian noise 0.003 and 0.006 on g with hkl_tol 0.02 and minpks = half a grain}; all ring pairs searched; minpks = 80%% of a grain's reflections" % (counts,))
 
 
